@@ -370,6 +370,11 @@ def run_c09(tier_: str) -> int:
                 ok = ok and (index.load_request_schema(k, ver) if typ == "request" else index.load_response_schema(k, ver)) is cls
             got = index.load_entity_schema(api, ver, et)
             ok = ok and got.__name__ == cls.__name__ and int(got.__version__) == ver and got.__type__ is et
+            if typ in ("request", "response"):
+                # the two sibling lookups are lookup functions as well
+                other = truth.get((api, ver, "response" if typ == "request" else "request"))
+                sib = index.load_response_from_request(cls) if typ == "request" else index.load_request_from_response(cls)
+                ok = ok and other is not None and sib is other[1]
         except Exception as exc:  # noqa: BLE001
             res.violation(f"unreachable:{api}:v{ver}:{typ}", f"{module.__name__} is not reachable through the index: {exc!r}",
                           {"api": api, "version": ver, "type": typ, "error": traceback.format_exc()})
